@@ -68,6 +68,23 @@ HINTS = {
     two instances alive at once, tables changed at run time, re-entrant next hops, the same object passing twice, coincidences
     inside one instant, exotic value types, interrupts from callbacks, shared mutable defaults, `is` vs `==`, stale caches,
     changes outside the anchor files, debug flags, float / Fraction sizes -- do not rely on those.""",
+    "7": """  * read every public method, property and optional constructor parameter of the classes in the anchor files and pick one
+    that an automated workload generator would plausibly never call or never set to a non-default value, yet which the
+    STATEMENT covers;
+  * a wrong result only for a particular RELATION between two values (a size that is an exact multiple of another value, a
+    time that is an exact multiple of a period, two rates whose ratio is an integer, a delay equal to a transmission time, a
+    count that equals a capacity), reached through `==`, `%`, `//`, rounding, `int()`, `round()`, or a `<` that should be `<=`;
+  * accumulated floating-point error: a quantity updated incrementally (`+=` per event) where it was computed from scratch, or
+    a subtraction of two large nearly equal numbers, so that a comparison flips only after many steps;
+  * something that depends on the ORDER in which the user constructs or connects objects (sink before source, ports connected
+    after the first packet, a table filled in incrementally, a flow registered twice);
+  * a path taken only when a collection momentarily holds exactly two (or exactly zero) entries of a kind, or when the same
+    key is removed and re-inserted within one instant;
+  * the earlier six rounds already covered: long histories, 0 / None / falsy values, huge / negative / integer / rational clocks,
+    two instances alive at once, tables changed at run time, re-entrant next hops, the same object passing twice, coincidences
+    inside one instant, exotic value types, interrupts from callbacks, shared mutable defaults, `is` vs `==`, stale caches,
+    changes outside the anchor files, debug flags, float / Fraction sizes, lazily created helper processes, zero-delay hops,
+    attribute changes between phases, several flows on one slot -- do not rely on those.""",
 }
 
 
